@@ -198,7 +198,7 @@ static Res evaluate(int idx, bool only, const GD& X, const GD& Y, const TD& T, c
         for (int j = 0; j < D; ++j) { Jan(0, j) = gw(j); Jad(0, j) = g(j); }
         r.Jan = Jan; r.Jad = Jad;
         // rounding scale of e = m - d (it may cancel), and conditioning of the inversion of the covariance
-        const Eigen::Matrix<double, GD::DoF, 1> ae = (U.coeffs().cwiseAbs() + d.coeffs().cwiseAbs()) * S + Eigen::Matrix<double, GD::DoF, 1>::Constant(1e-300);
+        const Eigen::Matrix<double, GD::DoF, 1> ae = (U.coeffs().cwiseAbs() + d.coeffs().cwiseAbs()) * S + Eigen::Matrix<double, GD::DoF, 1>::Constant(1e-150);   // squared below: keep the floor representable
         const typename CF::Covariance ainfo = info.cwiseAbs();
         const double cond = D * covc.cwiseAbs().maxCoeff() * ainfo.maxCoeff();
         r.scale = MatL(toML(Eigen::Matrix<double, 1, GD::DoF>(2.0 * cond * (ae.transpose() * ainfo))) * block_max_matrix(SpecOf<GD>::get(), toML(wrt_past ? b : a)));
